@@ -16,6 +16,7 @@ import (
 )
 
 var initOnce sync.Once
+var applyMu sync.Mutex
 
 // InitRepo does what main() does before building a table (aggregator metrics)
 // and silences the repo's logger.
@@ -68,6 +69,9 @@ func NewTable(legacy, m20 string, validateOrder bool, spoolDir string) *table.Ta
 // Apply runs an admin/init command against the table as the admin port would.
 func Apply(t table.Interface, cmd string) error {
 	InitRepo()
+	// the command scanner has package-level state: the harness never applies two commands at once
+	applyMu.Lock()
+	defer applyMu.Unlock()
 	return imperatives.Apply(t, cmd)
 }
 
